@@ -29,7 +29,7 @@ CLAIMED = {
          "DESIGN.md §4 C04"),
  "C05": ("exploration",
          "runtime monitor: recording TCC actions registered through the public proxy API in a client child; the fake coordinator's frame log, synchronous marks emitted by the user methods (ordered by the world's logical clock) and the phase-two responses are compared with a model of the parameter-capture rules written in the check",
-         "Global transactions with 1..3 Prepare calls over 3 actions (ASCII, punctuated and non-ASCII names) x 13 parameter shapes (tagged / untagged / unexported / ignored fields, nested structs, maps, slices, nil and non-nil pointers, interface values, embedded action context by pointer / nil pointer / value with pre-filled entries, bare contexts, non-struct values, nil) x try outcome x registration {granted, refused, unanswered} x phase-two sequence {single, 2-3 repeats, unknown resource, empty / non-JSON / non-object application data, commit then rollback} x user outcome {ok, error then ok, false, panic}: one TCC BranchRegister with the modelled application data strictly before try; no try after a failed registration; per request exactly one call of the matching method with the same xid / branch id and a JSON-equivalent context; success status iff the user method returned no error; unknown resources and unreadable data run no user code, report no success and leave the client alive.",
+         "Global transactions with 1..3 Prepare calls over 3 actions (ASCII, punctuated and non-ASCII names) x 17 parameter shapes (named, anonymous and same-named function-local struct types; tagged / untagged / unexported / ignored fields, nested structs, maps, slices, nil and non-nil pointers, interface values, embedded action context by pointer / nil pointer / value with pre-filled entries, bare contexts, non-struct values, nil) x try outcome x registration {granted, refused, unanswered} x phase-two sequence {single, 2-3 repeats, unknown resource, empty / non-JSON / non-object application data, commit then rollback} x user outcome {ok, error then ok, false, panic}: one TCC BranchRegister with the modelled application data strictly before try; no try after a failed registration; per request exactly one call of the matching method with the same xid / branch id and a JSON-equivalent context; success status iff the user method returned no error; unknown resources and unreadable data run no user code, report no success and leave the client alive.",
          "A request whose user method failed may stay unanswered or carry a retryable-failed status. The try outcome is scripted per action within one case.",
          "DESIGN.md §4 C05"),
  "C06": ("fault_enumeration",
